@@ -97,6 +97,7 @@ func (p *proc) ev(e event) { p.log = append(p.log, e) }
 type req struct {
 	id   string
 	conn net.Conn
+	br   *bufio.Reader
 	rest []byte
 }
 
@@ -118,17 +119,29 @@ func (p *proc) begin() (*req, error) {
 	p.nreq++
 	id := fmt.Sprintf("r%d", p.nreq)
 	q := url.Values{"key": {"k1"}, "filename": {id + ".ps1"}, "sigtype": {"ps"}, "ps-style": {id + ".ps1"}}
-	head := fmt.Sprintf("POST /sign?%s HTTP/1.1\r\nHost: relic\r\nContent-Length: %d\r\nX-Forwarded-For: 198.51.100.7\r\nSsl-Client-Cert: %s\r\nConnection: close\r\n\r\n",
+	head := fmt.Sprintf("POST /sign?%s HTTP/1.1\r\nHost: relic\r\nContent-Length: %d\r\nExpect: 100-continue\r\nX-Forwarded-For: 198.51.100.7\r\nSsl-Client-Cert: %s\r\nConnection: close\r\n\r\n",
 		q.Encode(), len(script), url.PathEscape(p.client.PEM()))
 	half := len(script) / 2
-	c.SetWriteDeadline(time.Now().Add(5 * time.Second))
-	if _, err := c.Write(append([]byte(head), script[:half]...)); err != nil {
+	c.SetDeadline(time.Now().Add(15 * time.Second))
+	if _, err := c.Write([]byte(head)); err != nil {
 		c.Close()
 		return nil, err
 	}
-	time.Sleep(150 * time.Millisecond) // the server has accepted the connection and is reading the body
+	// "100 Continue" is sent when the handler starts to read the body: from here on the request is in flight inside the
+	// server (authenticated, key opened, signer reading), not merely queued in the kernel
+	br := bufio.NewReader(c)
+	line, err := br.ReadString('\n')
+	if err != nil || !strings.HasPrefix(line, "HTTP/1.1 100") {
+		c.Close()
+		return nil, fmt.Errorf("no 100-continue: %q %v", line, err)
+	}
+	br.ReadString('\n') // the empty line after the interim response
+	if _, err := c.Write(script[:half]); err != nil {
+		c.Close()
+		return nil, err
+	}
 	p.ev(event{"ev": "Begin", "r": id})
-	return &req{id, c, script[half:]}, nil
+	return &req{id, c, br, script[half:]}, nil
 }
 
 // finish: send the rest and read the answer
@@ -136,7 +149,7 @@ func (p *proc) finish(r *req) {
 	defer r.conn.Close()
 	r.conn.SetDeadline(time.Now().Add(20 * time.Second))
 	_, werr := r.conn.Write(r.rest)
-	resp, err := http.ReadResponse(bufio.NewReader(r.conn), nil)
+	resp, err := http.ReadResponse(r.br, nil)
 	if err != nil {
 		p.ev(event{"ev": "Cut", "r": r.id, "why": fmt.Sprintf("%v / %v", werr, err)})
 		return
@@ -289,7 +302,11 @@ func Main(args []string) {
 	if err != nil {
 		panic(err)
 	}
-	defer func() { if os.Getenv("VERIF_KEEP") == "" { os.RemoveAll(dir) } }()
+	defer func() {
+		if os.Getenv("VERIF_KEEP") == "" {
+			os.RemoveAll(dir)
+		}
+	}()
 	tf, err := os.Create(tracePath)
 	if err != nil {
 		panic(err)
@@ -339,6 +356,5 @@ func Main(args []string) {
 	w.Flush()
 	tf.Close()
 	r.Extra["scenarios"] = len(scenarios())
-	_ = strings.TrimSpace
 	r.Emit()
 }
